@@ -3519,6 +3519,10 @@ class NetCDFWrite(IOWrite):
                             if (
                                 matched_construct
                                 and self._dimension_in_subgroup(f, ncdim1)
+                                # Never map two different domain axes
+                                # of the same field/domain onto one
+                                # netCDF dimension
+                                and ncdim1 not in g["axis_to_ncdim"].values()
                             ):
                                 use_existing_dimension = True
                                 break
